@@ -20,6 +20,7 @@ import sys
 import time
 
 from harness import common as C
+from harness import warm as W
 
 
 def _pool_map(fn, items, procs):
@@ -28,6 +29,30 @@ def _pool_map(fn, items, procs):
     ctx = mp.get_context("fork")
     with ctx.Pool(procs) as pool:
         return pool.map(fn, items, chunksize=max(1, len(items) // (procs * 8)))
+
+
+class _ImplCall:
+    """picklable wrapper: `mod.impl(line)`, inside `warm.warm_constructors()` for a line carrying the `@w` marker"""
+
+    def __init__(self, impl):
+        self.impl = impl
+
+    def __call__(self, line):
+        return W.call(self.impl, line)
+
+
+def with_warm_twins(mod, run, lines):
+    """`WARM_TWINS = share` in a property module: for that share of the lines the twin `<line> @w` is evaluated too —
+    the same operation with every library object asked every argument-less question as soon as it is constructed."""
+    share = getattr(mod, "WARM_TWINS", 0)
+    if isinstance(share, dict):
+        share = share.get(run.tier, 0)
+    skip_ops = set(getattr(mod, "WARM_SKIP_OPS", ()))
+    for ln in lines:
+        yield ln
+        if share and run.rng.random() < share and ln.split(" ", 1)[0] not in skip_ops and not ln.endswith(W.MARK):
+            run.count("warm-twin")
+            yield ln + W.MARK
 
 
 def corpus_lines(prop_id):
@@ -50,9 +75,10 @@ def evaluate(mod, run, lines, want_model=True, via=None):
     and the specification are functions of the mathematical operands only.
     `via` = id of the property whose operations these are, when they are borrowed by another property's check."""
     procs = int(os.environ.get("VERIF_PROCS", "16"))
-    impl_out = _pool_map(mod.impl, lines, procs)
+    impl_out = _pool_map(_ImplCall(mod.impl), lines, procs)
     impl_lines = lines
     ll = getattr(mod, "lean_line", None)
+    lines = [W.strip(l) for l in lines]          # `@w` twins (harness/warm.py): the Lean side is history-free
     if ll is not None:
         lines = [ll(l) for l in lines]
     model_ops = getattr(mod, "MODEL_OPS", None)
@@ -75,9 +101,9 @@ def evaluate(mod, run, lines, want_model=True, via=None):
     err_class = getattr(mod, "ERR_CLASS", False)
     for l, io, mo, so in zip(impl_lines, impl_out, model_out, spec_out):
         run.evaluations += 1
-        key = mod.nontrivial(l, io)
+        key = mod.nontrivial(W.strip(l), io)
         if key is not None:
-            run.nontrivial.add(key)
+            run.nontrivial.add((key, "@w") if l.endswith(W.MARK) else key)
         run.count("impl:" + ("ok" if io.startswith("ok") else io.split(" ", 2)[0] + " " + (io.split(" ", 2) + ["", ""])[1]))
         run.count("spec:" + so.split(" ", 1)[0])
         if len(run.samples) < 8 and key is not None and run.rng.random() < 0.01 + 8.0 / max(8, len(lines)):
@@ -166,7 +192,7 @@ def main(argv):
             if rc_lc not in (0, None):
                 broken.append({"what": "leanchecker", "detail": (out_lc or "")[-800:]})
     # 4 correspondence + spec ---------------------------------------------------------------
-    lines = corpus_lines(mod.ID) + list(mod.cases(run))
+    lines = corpus_lines(mod.ID) + list(with_warm_twins(mod, run, mod.cases(run)))
     model_usable = build_ok or _driver_builds(mod)
     evaluate(mod, run, lines, want_model=model_usable)
     if hasattr(mod, "extra_checks"):
@@ -196,7 +222,7 @@ def main(argv):
             findings = findings + [dict(f, id=(f["id"] + "@" + o.ID) if f["id"] in own_ids else f["id"])]
     new_failures = []
     for f in run.failures:
-        k = C.match_finding(findings, f["line"], f["impl"], f)
+        k = C.match_finding(findings, W.strip(f["line"]), f["impl"], f)
         if k:
             run.known_hit[k["id"]] = run.known_hit.get(k["id"], 0) + 1
         else:
@@ -272,7 +298,9 @@ def _borrow(mod, run, tier, seed, skip_build):
         have_model = skip_build or C.lake_build(list(other.DRIVER_MODULES))[0]
         runb = C.Run(mod.ID, tier, seed)
         ops = set(b["ops"])
-        blines = [l for l in other.cases(runb) if l.split(" ", 1)[0] in ops]
+        pick = b.get("pick")
+        blines = [l for l in with_warm_twins(other, runb, other.cases(runb))
+                  if l.split(" ", 1)[0] in ops and (pick is None or pick(l))]
         if b.get("max") and len(blines) > b["max"]:
             blines = runb.rng.sample(blines, b["max"])
         n0 = run.evaluations
